@@ -19,6 +19,10 @@ def run_extract(c, d):
         os.makedirs(os.path.dirname(p), exist_ok=True)
         with open(p, 'w') as fh:
             fh.write(text)
+    for rel, target in json.loads(c['files'].get('.links.json', '{}')).items():
+        os.makedirs(os.path.dirname(os.path.join(d, target)), exist_ok=True)
+        os.replace(os.path.join(d, rel), os.path.join(d, target))
+        os.symlink(os.path.join(d, target), os.path.join(d, rel))
     script = os.path.join(d, c['script'])
     prof_mod = [os.path.join(d, x[5:]) if x.startswith('PATH:') else x for x in c['prof_mod']]
     # as kernprof hands them over: an entry that is not an existing file name is split at commas
